@@ -16,7 +16,7 @@ from phyclone.utils.dev import clear_proposal_dist_caches
 
 ID = "C08"
 LEVEL = "proof"
-THEOREMS = []
+THEOREMS = ["table_sum_one", "splits_inv_binom_sum", "support_complete", "sampler_eq_table", "distinctKeys_of_nodup", "weights_telescope", "recover_placement", "unique_parent", "wfParent_of_nodup"]
 BUDGET = {"quick": 100, "thorough": 700}
 RULE = ("parent states: none (first data point), outliers only, 1..4 top-level clones with and without outliers and nested "
         "children; next data point; three proposals; outlier proposal probability 0, 1/10, 1/5; with and without a permutation "
